@@ -1,1 +1,104 @@
-Theorem placeholder_removed_later : True. Proof. exact I. Qed. Print Assumptions placeholder_removed_later.
+(* C04 - Every request gets exactly one outcome.
+   "Each request submitted to the transport ends in exactly one terminal outcome - its response(s)
+   or a single failure report - never both, never neither, never two - under any loss, duplication,
+   reordering, delay, challenge or re-keying by either side.  A request is put on the wire at most
+   1+retries times per session key, and a timeout is reported only if some request to that peer
+   really went unanswered for a full timeout period."
+
+   Statements about Model/Handler.v (validated against the real handler by the correspondence run);
+   every theorem is closed by a lemma of Proofs/HandlerA_*.v and followed by Print Assumptions.
+   The events, times and oracle draws of a run are arbitrary ("any loss, duplication, reordering,
+   delay, challenge or re-keying by either side").
+
+   Part 1 (this section): "never two, never both" - at most one terminal event per request id and
+   nothing after it.  Hypothesis: the request ids are fresh, i.e. the ids the application submits
+   (EvRequest) and the internal ids the handler draws for the FINDNODE[0] of an ENR-less contact
+   are pairwise distinct over the run: [NoDup (run_new_ids evs)].  This is a statement about the
+   application and about rand, which no model can prove (DESIGN.md section 4).
+
+   Terminal: a failure report is terminal; a response is terminal iff the handler no longer holds
+   the request after the step that reported it ([is_terminal]; every HResponse is the last output
+   of its step).  [C04_nonterminal_response_is_partial_nodes] ties this to the content. *)
+From Coq Require Import List Arith NArith Bool.
+From Discv5V Require Import Model.Handler Proofs.HandlerInv Proofs.HandlerA_Ledger.
+Import ListNotations.
+
+(* [all_rids h]: the ids of the requests held in the active requests and in the pending queues;
+   [ext_rids h]: those of the application's requests among them;
+   [new_ids e d]: the ids a step introduces; [run_new_ids evs]: all of them, in order;
+   [tagged h' o]: the outputs of a step that are about a request id (HRequestFailed, HResponse), in
+   order, as (id, terminal?); [run_tagged c h evs]: the same for a whole run. *)
+
+(* conservation: inside a step no request id gains a holder or an event, except the ids the step
+   introduces and except a final non-terminal NODES response *)
+Theorem C04_step_conservation :
+  forall c h e now d,
+  let h' := fst (step c h e now d) in
+  let o := snd (step c h e now d) in
+  (forall x, occ x h' + men x o <= occ x h + cnt x (new_ids e d))
+  \/ exists o0 na rid rb, o = o0 ++ [OEvent (HResponse na rid rb)] /\ 1 <= occ rid h' /\
+       (exists total recs, rb = RNodes total recs /\ (1 < total)%N) /\
+       forall x, occ x h' + men x o0 <= occ x h + cnt x (new_ids e d).
+Proof. exact step_conservation. Qed.
+Print Assumptions C04_step_conservation.
+
+(* the ids held in a reachable state are pairwise distinct *)
+Theorem C04_rids_nodup :
+  forall c evs, NoDup (run_new_ids evs) ->
+  NoDup (all_rids (fst (run c init_state evs))) /\ NoDup (ext_rids (fst (run c init_state evs))).
+Proof. exact reachable_rids_nodup. Qed.
+Print Assumptions C04_rids_nodup.
+
+(* a terminal event is about a request that was held before the step (or is introduced by it) and
+   is no longer held after it *)
+Theorem C04_terminal_event_ends_the_request :
+  forall c h e now d x,
+  (forall y, occ y h + cnt y (new_ids e d) <= 1) ->
+  In (x, true) (tagged (fst (step c h e now d)) (snd (step c h e now d))) ->
+  (In x (all_rids h) \/ In x (new_ids e d)) /\ ~ In x (all_rids (fst (step c h e now d))).
+Proof. exact step_terminal_event. Qed.
+Print Assumptions C04_terminal_event_ends_the_request.
+
+(* a non-terminal response leaves the request with the handler ... *)
+Theorem C04_nonterminal_response_keeps_the_request :
+  forall c h e now d x,
+  In (x, false) (tagged (fst (step c h e now d)) (snd (step c h e now d))) ->
+  In x (all_rids (fst (step c h e now d))).
+Proof. exact step_nonterminal_event. Qed.
+Print Assumptions C04_nonterminal_response_keeps_the_request.
+
+(* ... and is a NODES response that announces more than one packet *)
+Theorem C04_nonterminal_response_is_partial_nodes :
+  forall c h e now d na x rb,
+  (forall y, occ y h + cnt y (new_ids e d) <= 1) ->
+  In (OEvent (HResponse na x rb)) (snd (step c h e now d)) ->
+  In x (all_rids (fst (step c h e now d))) ->
+  exists total recs, rb = RNodes total recs /\ (1 < total)%N.
+Proof. exact step_nonterminal_is_partial_nodes. Qed.
+Print Assumptions C04_nonterminal_response_is_partial_nodes.
+
+(* at_most_one_outcome: in every run, nothing about a request id follows its terminal event
+   (no second failure, no response after a failure, no failure after the last response) ... *)
+Theorem C04_nothing_after_the_terminal_event :
+  forall c evs x l1 l2, NoDup (run_new_ids evs) ->
+  run_tagged c init_state evs = l1 ++ (x, true) :: l2 -> ~ In x (map fst l2).
+Proof. intros c evs x l1 l2 H. apply run_nothing_after_terminal. apply Uniq_init. exact H. Qed.
+Print Assumptions C04_nothing_after_the_terminal_event.
+
+(* ... hence at most one terminal event per request id *)
+Theorem C04_at_most_one_terminal_event :
+  forall c evs x, NoDup (run_new_ids evs) -> tcount x (run_tagged c init_state evs) <= 1.
+Proof. intros c evs x H. apply run_at_most_one_terminal. apply Uniq_init. exact H. Qed.
+Print Assumptions C04_at_most_one_terminal_event.
+
+(* The hypotheses are satisfiable by a non-trivial run: a session is established, request 100 is
+   answered by a NODES response in two packets, request 101 times out after its retransmission. *)
+Example C04_hypotheses_satisfiable :
+  NoDup (run_new_ids ex_outcome_events) /\
+  run_tagged (ex_cfg true) init_state ex_outcome_events = [(100%N, false); (100%N, true); (101%N, true)] /\
+  all_rids (fst (run (ex_cfg true) init_state (firstn 5 ex_outcome_events))) = [101%N] /\
+  length (sessions (fst (run (ex_cfg true) init_state (firstn 5 ex_outcome_events)))) = 1.
+Proof.
+  split; [exact ex_outcome_fresh|]. split; [exact (proj1 ex_outcome_trace)|exact ex_outcome_midway].
+Qed.
+Print Assumptions C04_hypotheses_satisfiable.
